@@ -32,6 +32,7 @@ func (e *verifErr) Error() string { return fmt.Sprintf("verif error %d", e.n) }
 var lastSentinelPanic int
 
 type rpRecorder struct {
+	router *rux.Router // the router serving the request (nil: not checked)
 	trace  []Sx
 	req    *http.Request
 	ctxPtr string
@@ -148,7 +149,7 @@ func rpSnap(c *rux.Context) Sx {
 		ps = append(ps, L(S(k), S(c.Params[k])))
 	}
 	_, isWrap := c.Resp.(*wrapW)
-	return L(A("snap"), LS(data), LS(ps), I(len(c.Errors)), I(c.StatusCode()), I(c.Length()), B(!isWrap), B(c.Req == rpRec(c).req))
+	return L(A("snap"), LS(data), LS(ps), I(len(c.Errors)), I(c.StatusCode()), I(c.Length()), B(!isWrap), B(c.Req == rpRec(c).req), B(rpRec(c).router == nil || c.Router() == rpRec(c).router))
 }
 
 func rpRunOp(c *rux.Context, op Sx) {
@@ -530,7 +531,7 @@ func rpExec(c Sx) (out Sx) {
 		}
 		w := newRecWriter(script)
 		req := &http.Request{Method: rq.List[0].Str(), URL: &url.URL{Path: rq.List[1].Str()}, Header: http.Header{}, Proto: "HTTP/1.1", ProtoMajor: 1, ProtoMinor: 1}
-		rpCur = &rpRecorder{req: req}
+		rpCur = &rpRecorder{req: req, router: env.r}
 		esc := func() (esc Sx) {
 			esc = A("none")
 			defer func() {
